@@ -162,7 +162,7 @@ def run_check(pid, tier, seed):
     disagreements = []
     float_tie = None
     for l, a, b in zip(clines, cimpl, model):
-        if l.startswith("capf "):
+        if l.startswith("capf ") or l.startswith("capr "):
             # the double-precision model (Model/CapacityF.lean) is a SECOND, stricter tie (bit for bit) next to the `cap`
             # correspondence with the exact-rational model; like the translation tie it never decides a verdict: a rewrite
             # that reorders floating-point operations keeps C17 and breaks only this. Recorded in the evidence.
